@@ -228,6 +228,48 @@ class FileSeam:
                         raise seam._err(flt, p)
                 return orig(src, *a, **kw)
             return f
+        # os-level file I/O (code that bypasses the io layer): os.open / os.write / os.close
+        self._orig.update({"os_write": os.write, "os_close": os.close})
+        self.fds = {}
+        orig_os_open, orig_os_write, orig_os_close = os.open, os.write, os.close
+
+        def _os_open(path, flags, *a, **kw):
+            p = os.fspath(path)
+            if isinstance(p, bytes):
+                p = os.fsdecode(p)
+            under = seam.root is not None and seam._under(p)
+            if under:
+                seam.ops.append(("os.open", p, flags))
+                flt = seam._take("open", p) if flags & (os.O_WRONLY | os.O_RDWR | os.O_CREAT) else None
+                if flt is not None:
+                    raise seam._err(flt, p)
+            fd = orig_os_open(path, flags, *a, **kw)
+            if under:
+                seam.fds[fd] = p
+            return fd
+
+        def _os_write(fd, data):
+            p = seam.fds.get(fd)
+            if p is not None and seam.root is not None:
+                flt = seam._take("write", p)
+                if flt is not None:
+                    k = min(len(data), int(flt.get("after", 0)))
+                    if flt["kind"] == "SHORT":
+                        # the kernel cuts the write short WITHOUT raising; the next
+                        # write on this descriptor fails
+                        seam.plan.insert(0, {"op": "write", "kind": "ENOSPC", "after": 0, "match": p})
+                        if k:
+                            return orig_os_write(fd, bytes(data)[:k])
+                        raise seam._err({"kind": "ENOSPC"}, p)
+                    if k:
+                        orig_os_write(fd, bytes(data)[:k])
+                    raise seam._err(flt, p)
+            return orig_os_write(fd, data)
+
+        def _os_close(fd):
+            seam.fds.pop(fd, None)
+            return orig_os_close(fd)
+        os.open, os.write, os.close = _os_open, _os_write, _os_close
         os.replace = wrap2("replace", "replace")
         os.rename = wrap2("rename", "replace")
         os.unlink = wrap2("unlink", "unlink")
@@ -244,6 +286,9 @@ class FileSeam:
         os.unlink = self._orig["unlink"]
         os.remove = self._orig["remove"]
         os.mkdir = self._orig["mkdir"]
+        os.open = self._orig["os_open"]
+        os.write = self._orig["os_write"]
+        os.close = self._orig["os_close"]
         self.installed = False
 
     def arm(self, root, plan):
@@ -292,6 +337,10 @@ class WriteFaultFile:
             if k:
                 self._f.write(data[:k])
                 self._f.flush()
+            if flt["kind"] == "SHORT":
+                # a buffered writer retries the rest of a short write and then meets
+                # the full disk: same observable outcome as ENOSPC after k bytes
+                raise self._seam._err({"kind": "ENOSPC"}, self._path)
             raise self._seam._err(flt, self._path)
         return self._f.write(data)
 
